@@ -29,7 +29,7 @@ CLAIMS = {
   'Lean 4 theorems (finish OK iff sources determined; elimination model) + rank oracle on the real decoder', 'DESIGN.md section 0.2 and section 4, C03'),
  'C04': (M, 'proof',
   'Theorem C04_eq: for every well-formed matrix and every finite submission sequence (any order, duplicates), the set known to the '
-  'transliterated streaming decoder equals the peeling closure of the received set; order/duplicate independence as corollary. Tie: '
+  'transliterated streaming decoder equals the peeling closure of the received set; order/duplicate independence as corollary; C04_session: the same for decoder sessions of the session model driven by any sequence of of_decode_with_new_symbol calls (the well-formedness hypothesis holds for every accepted configuration by C05_matrix_wf). Tie: '
   'available set and completion flag compared after every single call with the model and with an independent closure computation.',
   'Lean 4 invariant proof (peeling closure) + per-call correspondence', 'DESIGN.md section 4, C04 and appendix C.5'),
  'C05': (M, 'proof',
@@ -51,6 +51,7 @@ CLAIMS = {
   'Lean 4 theorem (accept iff within limits) + boundary-grid correspondence', 'DESIGN.md section 4, C09'),
  'C10': (M, 'proof',
   'Theorems over the session model: finish=OK iff complete afterwards, FAILURE iff not, completion is monotone (Reed-Solomon; and LDPC-Staircase/2D in every decoder state, C10_ldpc_finish_truthful), submissions return OK, a '
+  'source symbol submitted while unknown is recorded with the application pointer and the record of a known symbol is never touched again (C10_rs_pointer_identity, C10_ldpc_pointer_identity); a '
   'source symbol submitted while unknown is reported by the very pointer. Tie: traced sessions (query after every call) on all receive '
   'sets for small n, both APIs, callbacks, finish after completion and with fewer than k symbols, histories that continue after of_finish_decoding (second finish, late symbols); direct oracle on statuses.',
   'Lean 4 theorems over session state machine + traced correspondence', 'DESIGN.md section 4, C10'),
